@@ -9,7 +9,7 @@
 use std::io::Write;
 
 use paseto_core::PasetoError;
-use paseto_core::version::{Local, Secret};
+
 use serde_json::json;
 
 use crate::backend::*;
